@@ -52,10 +52,19 @@ Value& STRPOSExpression::value(Context & ctx) const
         val.swap(std::move(v));
         return val;
       case Type::INTEGER:
-        s = *a2.integer();
-        break;
       case Type::NUMERIC:
-        s = Integer(*a2.numeric());
+        /* null position gives null, as the undefined one */
+        if (a2.isNull())
+        {
+          if (val.lvalue())
+            return ctx.allocate(std::move(v));
+          val.swap(std::move(v));
+          return val;
+        }
+        if (a2.type().major() == Type::INTEGER)
+          s = *a2.integer();
+        else
+          s = Integer(*a2.numeric());
         break;
       default:
         throw RuntimeError(EXC_RT_FUNC_ARG_TYPE_S, KEYWORDS[oper]);
